@@ -64,6 +64,7 @@ def proof_stage(pid, module, theorems, tier):
         res["log"] = out[-6000:]
         res["cmds"] = cmds
         return res
+    leandrv.private_driver()
     hits = grep_forbidden()
     res["forbidden_hits"] = hits
     # axiom audit
